@@ -669,6 +669,16 @@ def numpy_call(it, fn, d, e, env, argv, kw, args):
         return unk("repeat")
     if fn == "diagonal":
         return a0.copy(sh=None, cval=None) if a0 is not None and a0.is_numlike else unk()
+    if fn == "expand_dims" and a0 is not None and a0.is_numlike and a0.sh is not None:
+        axv = kw.get("axis", argv[1] if len(argv) > 1 else None)
+        if axv is not None and axv.cval is not None:
+            n_ = len(a0.sh) + 1
+            j = int(axv.cval)
+            j = j if j >= 0 else n_ + j
+            if 0 <= j < n_:
+                sh = list(a0.sh)
+                sh.insert(j, "1")
+                return a0.copy(sh=tuple(sh), cval=None)
     if fn in ("expand_dims", "broadcast_to", "reshape", "squeeze"):
         return a0.copy(sh=None, cval=None) if a0 is not None and a0.is_numlike else unk()
     if fn == "isclose" or fn == "allclose" or fn == "array_equal":
